@@ -114,20 +114,31 @@ func fromGo(e goast.Expr, elided string) (*G, error) {
 			if err != nil {
 				return nil, err
 			}
-			g.set(kv.Key.(*goast.Ident).Name, c)
+			id, ok := kv.Key.(*goast.Ident)
+			if !ok {
+				return nil, fmt.Errorf("key of a struct literal is %T, not a field name", kv.Key)
+			}
+			g.set(id.Name, c)
 		}
 		return g, nil
 	case *goast.CallExpr: // []byte("...") or token.ID(40)
 		fn := typeStr(x.Fun)
+		if len(x.Args) != 1 {
+			return nil, fmt.Errorf("conversion %s with %d operands", fn, len(x.Args))
+		}
+		lit, ok := x.Args[0].(*goast.BasicLit)
+		if !ok {
+			return nil, fmt.Errorf("operand of %s(…) is %T, not a literal", fn, x.Args[0])
+		}
 		if fn == "[]byte" {
-			s, err := strconv.Unquote(x.Args[0].(*goast.BasicLit).Value)
+			s, err := strconv.Unquote(lit.Value)
 			if err != nil {
 				return nil, err
 			}
 			return &G{Type: "bytes", Atom: s}, nil
 		}
 		if fn == "token.ID" {
-			return &G{Type: "id", Atom: x.Args[0].(*goast.BasicLit).Value}, nil
+			return &G{Type: "id", Atom: lit.Value}, nil
 		}
 		return nil, fmt.Errorf("call %s", fn)
 	case *goast.SelectorExpr:
